@@ -59,9 +59,12 @@ def check_case(case, substep=1):
                     n, which, kind, float(np.ravel(got)[0]), float(np.ravel(want)[0]))))
             if kind_m == "flux":
                 q = np.array(A).reshape(cw.shape)
-                if np.all(q > 0) and not np.all(got > 0):
+                # entries that are positive beyond interpolation round-off (a datum of 1e-17 is zero)
+                dscale = float(np.max(np.abs(case.inner_data if which == "inner" else case.outer_data)))
+                pos = q > 1e-9 * (dscale + 1e-300)
+                if np.any(pos) and not np.all(got[pos] > 0):
                     bad.append(("flux-sign-" + which + ("-thick" if thick else ""),
-                                "step %d: positive %s flux does not heat the wall (face input %r)" % (n, which, float(np.min(got)))))
+                                "step %d: positive %s flux does not heat the wall (face input %r)" % (n, which, float(np.min(got[pos])))))
                 # physical statement: discrete input vs q x nominal area, bound dr/(2 r_wall)
                 if case.mat_T is None and not case.steady:
                     rw = rin if which == "inner" else case.r
